@@ -318,13 +318,18 @@ def _get_dict(data):
         return data
     else:
         try:
-            return json.loads(data)
-        except TypeError:
-            pass
-        try:
-            return json.load(data)
-        except AttributeError:
-            pass
+            try:
+                return json.loads(data)
+            except TypeError:
+                pass
+            try:
+                return json.load(data)
+            except AttributeError:
+                pass
+        except RecursionError:
+            raise ValueError(
+                "Cannot convert JSON text to dictionary: nested too deeply",
+            ) from None
         try:
             return dict(data)
         except (ValueError, TypeError):
